@@ -20,7 +20,6 @@ import random
 from collections import Counter
 
 from mc import env  # noqa: F401
-from mc import explore as X
 from mc.ref import ldm_model as R
 from mc.worlds import ldm as L
 from mc.worlds.ldm import APP, LdmWorld, ckey, is_exc
@@ -78,7 +77,7 @@ class SubsModel:
 
     # -- world ---------------------------------------------------------------------------------------------------
     def init(self):
-        w = LdmWorld("Dictionary", probe_attend=True)
+        w = LdmWorld("Dictionary", probe_attend=True, probe_trash=True)
         w.ref = R.RefSubs()
         w.sub_ids = []        # impl subscription id (or None if refused) per subscribe event, in order
         w.sub_owner = []
@@ -106,6 +105,8 @@ class SubsModel:
                 continue
             if ev[0] == "unsub":
                 continue
+            if ev[0] == "attend" and not w.can("attend"):
+                continue
             out.append(ev)
         if any(e[0] == "unsub" for e in self.alphabet):
             for k, sid in enumerate(w.sub_ids):
@@ -117,7 +118,7 @@ class SubsModel:
     def apply(self, w, ev):
         ref, op = w.ref, ev[0]
         del w.calls[:]
-        att0 = w.attend_probe.count
+        att0 = w.attend_probe.count if w.attend_probe else None
         exp = dict(op=op)
         got = None
         if op == "regp":
@@ -184,7 +185,12 @@ class SubsModel:
             got = w.attend()
         else:
             raise ValueError(ev)
-        exp["attendances"] = w.attend_probe.count - att0
+        if att0 is not None:
+            exp["attendances"] = w.attend_probe.count - att0
+            exp["attendance_known"] = True
+        else:       # no probe possible: an attendance is recognised by its callbacks only (explicit attend = 1)
+            exp["attendances"] = 1 if (op == "attend" or w.calls) else 0
+            exp["attendance_known"] = op == "attend"
         w.last = (exp, got)
         w.bad = self._compare(w, ev)     # (also advances the reference: a callback that took place is a notification)
         return got
@@ -320,7 +326,7 @@ class SubsModel:
                     v("too_many_callbacks", n=len(cs), **info)
                     continue
                 if not cs:
-                    if verdict == "must":
+                    if verdict == "must" and (exp["attendance_known"] or calls):
                         v("notification_missing", **info)
                     continue
                 if verdict == "no":
@@ -343,27 +349,28 @@ class SubsModel:
 
     # -- canonical state -------------------------------------------------------------------------------------------------
     def canon(self, w):
-        """Subscription table with times relative to the current clock second (capped at the largest interval), the
-        registries, the stored objects (content only: nothing in C14 expires), the phase of `now` within its second and
-        the capped time since the last reactive attendance / collection; plus the reference table."""
+        """Projection through public / documented names only: the subscription table (LDMService.subscriptions and
+        last_checked_subscriptions_time, both documented in the class docstring; request digest bounded, callbacks are
+        identified by their key and never followed) with times relative to the current clock second capped at the largest
+        interval, the registries (accessors), the stored objects' headers (get_all_data_containers; nothing expires in C14),
+        the phase of `now` within its second, the time since the last reactive attendance / collection as observed by the
+        probes (capped at the module intervals); plus the reference table.  If the subscription table is not available the
+        projection degrades to the reference table (sound while implementation and reference agree - disagreements are cut)."""
         now = w.now
         frac = round(now - int(now), 3)
         cap = MAX_INTERVAL_S
-        try:
-            s = w.ldm.ldm_service
-            m = w.ldm.ldm_maintenance
-            base = L.its_ms(now)
-            subs = []
-            for sub in s.subscriptions:
-                rq = sub.subscription_request
-                last = s.last_checked_subscriptions_time.get(sub)
-                subs.append((getattr(sub.callback, "key", None), rq.application_id, hash(rq),
-                             None if last is None else min((base - last.timestamp_its) // 1000, cap)))
-            real = (tuple(subs), tuple(sorted(s.data_consumer_its_aid)), tuple(sorted(s.data_provider_its_aid)),
-                    tuple((oid, rec["dataObject"]["header"]["stationId"]) for oid, rec in sorted(m.data_containers.database.items())),
-                    min(round(now - s.last_subscription_time, 3), 0.5), min(round(now - m.last_trash_collection_time, 3), 1.0))
-        except Exception:  # noqa: BLE001
-            real = ("generic", X.generic_canon(w.ldm.ldm_service.subscriptions), int(now))
+        base = L.its_ms(now)
+        table = w.subscription_table()          # documented attributes LDMService.subscriptions / last_checked_subscriptions_time
+        if table is not None:
+            table = tuple((key, app, rq, None if last is None else min((base - last) // 1000, cap)) for key, app, rq, last in table)
+        regs = w.registries()                   # public accessors
+        stored = w.stored()                     # public get_all_data_containers
+        if stored is not None:
+            stored = tuple(sorted(repr(L.bounded_digest(r.get("dataObject", {}).get("header") if isinstance(r, dict) else r)) for r in stored))
+        real = (table, None if regs is None else (tuple(sorted(regs[0])), tuple(sorted(regs[1]))), stored,
+                # reactive timers as observed through the probes, capped at the module intervals
+                min(round(now - w.last_reactive_attend, 3), L.ATTEND_INTERVAL) if w.attend_probe else round(now - w.last_reactive_attend, 3),
+                min(round(now - w.last_reactive_trash, 3), L.TRASH_INTERVAL) if w.trash_probe else round(now - w.last_reactive_trash, 3))
         rs = w.ref
         rcanon = (tuple(sorted(rs.consumers)),
                   tuple((s.key, s.app, s.live, s.impl_id if s.live else 0,
